@@ -44,6 +44,11 @@ const FAMILIES: &[Family] = &[
   Family { name: "KDP_t1", kind: "KDP_1", pm: "e->oo", theta: "\"auto\"", poled: false, lp_nm: 405. },
   Family { name: "LiIO3_t1", kind: "LiIO3_1", pm: "e->oo", theta: "\"auto\"", poled: false, lp_nm: 532. },
   Family { name: "BBO_t1_pp", kind: "BBO_1", pm: "e->oo", theta: "30", poled: true, lp_nm: 405. },
+  Family { name: "BiBO_t1", kind: "BiBO_1", pm: "e->oo", theta: "\"auto\"", poled: false, lp_nm: 405. },
+  Family { name: "BiBO_t1_pp", kind: "BiBO_1", pm: "e->oo", theta: "40", poled: true, lp_nm: 532. },
+  Family { name: "AgGaS2_t1", kind: "AgGaS2_1", pm: "e->oo", theta: "\"auto\"", poled: false, lp_nm: 1064. },
+  Family { name: "AgGaSe2_t1", kind: "AgGaSe2_1", pm: "e->oo", theta: "\"auto\"", poled: false, lp_nm: 1550. },
+  Family { name: "AgGaSe2_2_pp", kind: "AgGaSe2_2", pm: "e->oo", theta: "50", poled: true, lp_nm: 1550. },
 ];
 
 struct Params {
@@ -54,20 +59,46 @@ struct Params {
   bw_nm: f64,
   th_s_ext: f64,
   ls_nm: f64,
+  phi_s_deg: f64,
+  temp_c: f64,
+  /// explicit (signal, idler) waist positions in um; None = the optimal ones
+  z0_um: Option<(f64, f64)>,
 }
 
 fn config(f: &Family, p: &Params) -> String {
   let pp = if f.poled { r#""periodic_poling":{"poling_period_um":"auto"},"# } else { "" };
   format!(
-    r#"{{"crystal":{{"kind":"{}","pm_type":"{}","phi_deg":0,"theta_deg":{},"length_um":{},"temperature_c":20}},
+    r#"{{"crystal":{{"kind":"{}","pm_type":"{}","phi_deg":0,"theta_deg":{},"length_um":{},"temperature_c":{}}},
         "pump":{{"wavelength_nm":{},"waist_um":{},"bandwidth_nm":{},"average_power_mw":1,"spectrum_threshold":0.01}},
-        "signal":{{"wavelength_nm":{},"phi_deg":0,"theta_external_deg":{},"waist_um":{},"waist_position_um":"auto"}},
+        "signal":{{"wavelength_nm":{},"phi_deg":{},"theta_external_deg":{},"waist_um":{},"waist_position_um":"auto"}},
         "idler":"auto",{}"deff_pm_per_volt":1}}"#,
-    f.kind, f.pm, f.theta, p.len_um, f.lp_nm, p.wp_um, p.bw_nm, p.ls_nm, p.th_s_ext, p.ws_um, pp
+    f.kind, f.pm, f.theta, p.len_um, p.temp_c, f.lp_nm, p.wp_um, p.bw_nm, p.ls_nm, p.phi_s_deg, p.th_s_ext, p.ws_um, pp
   )
 }
 
+/// the setup of a config plus the modifications the config cannot express (used by the sampler and by the corpus replay alike)
+fn build_from(j: String, wi: f64, z0_um: Option<(f64, f64)>) -> Result<SPDC, String> {
+  match guarded(move || -> Result<SPDC, String> {
+    let mut s = SPDC::from_json(j).map_err(|e| e.to_string())?;
+    s.idler.set_waist(wi * 1e-6 * M);
+    s.assign_optimal_waist_positions();
+    if let Some((a, b)) = z0_um {
+      s.signal_waist_position = a * 1e-6 * M;
+      s.idler_waist_position = b * 1e-6 * M;
+    }
+    Ok(s)
+  }) {
+    Ok(r) => r,
+    Err(p) => Err(format!("panic: {}", p)),
+  }
+}
+
 fn build(f: &Family, p: &Params) -> Result<SPDC, String> {
+  build_from(config(f, p), p.wi_um, p.z0_um)
+}
+
+#[allow(dead_code)]
+fn build_old(f: &Family, p: &Params) -> Result<SPDC, String> {
   let j = config(f, p);
   let wi = p.wi_um;
   match guarded(move || -> Result<SPDC, String> {
@@ -97,7 +128,8 @@ fn mismatch(spdc: &SPDC) -> f64 {
 fn describe(f: &Family, p: &Params, spdc: &SPDC) -> Value {
   json!({"family": f.name, "crystal": f.kind, "pm_type": f.pm, "poled": f.poled, "pump_nm": f.lp_nm, "signal_nm": p.ls_nm,
     "length_um": p.len_um, "pump_waist_um": p.wp_um, "signal_waist_um": p.ws_um, "idler_waist_um": p.wi_um,
-    "bandwidth_nm": p.bw_nm, "signal_theta_external_deg": p.th_s_ext,
+    "bandwidth_nm": p.bw_nm, "signal_theta_external_deg": p.th_s_ext, "signal_phi_deg": p.phi_s_deg, "temperature_c": p.temp_c,
+    "waist_positions_um": p.z0_um.map(|(a, b)| vec![a, b]),
     "crystal_theta_deg": *(spdc.crystal_setup.theta / spdcalc::dim::ucum::DEG),
     "config": config(f, p)})
 }
@@ -147,9 +179,16 @@ fn pointwise(rng: &mut Rng, nsetups: usize, npts: usize) {
       ws_um: rng.log_range(20., 300.),
       wi_um: rng.log_range(20., 300.),
       bw_nm: rng.log_range(0.2, 8.0),
-      th_s_ext: if collinear { 0.0 } else { rng.range(0.2, 3.0) },
+      th_s_ext: if collinear { 0.0 } else { rng.range(0.2, 5.0) },
       ls_nm: ls,
+      phi_s_deg: if rng.unit() < 0.5 { 0.0 } else { rng.range(0.0, 360.0) },
+      temp_c: if rng.unit() < 0.4 { 20.0 } else { rng.range(-20.0, 150.0) },
+      z0_um: None,
     };
+    let mut p = p;
+    if rng.unit() < 0.4 {
+      p.z0_um = Some((-p.len_um * rng.range(0.0, 0.6), -p.len_um * rng.range(0.0, 0.6)));
+    }
     let integ = if rng.coin() { Integrator::Simpson { divs: 200 } } else { Integrator::GaussLegendre { degree: 40 } };
     let spdc = match build(f, &p) {
       Ok(s) => s,
@@ -185,7 +224,7 @@ fn pointwise(rng: &mut Rng, nsetups: usize, npts: usize) {
     }
     for (tag, os, oi) in pts {
       match triple(&spdc, &js.0, &js.1, os, oi) {
-        Ok((c, ss, si, alpha)) => emit(json!({"kind":"pw","diag": diag_ratios(&spdc, os, oi, integ),"tag":tag,"integrator":integ_json(&integ),"ws":fx(os),"wi":fx(oi),
+        Ok((c, ss, si, alpha)) => emit(json!({"kind":"pw","tag":tag,"integrator":integ_json(&integ),"ws":fx(os),"wi":fx(oi),
           "wp":fx(hz(spdc.pump.frequency())),"alpha":fx(alpha),"jsi":fx(c),"singles_s":fx(ss),"singles_i":fx(si),"mismatch":fx(mm),
           "setup":describe(f, &p, &spdc)})),
         Err(e) => emit(json!({"kind":"pw_panic","tag":tag,"ws":fx(os),"wi":fx(oi),"panic":e,"setup":describe(f, &p, &spdc)})),
@@ -204,7 +243,10 @@ fn limit(rng: &mut Rng, nsetups: usize) {
       wi_um: rng.log_range(1000., 3000.),
       bw_nm: rng.log_range(0.2, 8.0),
       th_s_ext: 0.0,
-      ls_nm: 2.0 * f.lp_nm,
+      ls_nm: if k % 3 == 2 { 2.0 * f.lp_nm * rng.range(0.95, 1.05) } else { 2.0 * f.lp_nm },
+      phi_s_deg: 0.0,
+      temp_c: if k % 4 == 1 { rng.range(0.0, 120.0) } else { 20.0 },
+      z0_um: if k % 5 == 3 { Some((-100.0 * rng.unit(), -100.0 * rng.unit())) } else { None },
     };
     let integ = if k % 2 == 0 { Integrator::Simpson { divs: 200 } } else { Integrator::GaussLegendre { degree: 40 } };
     let spdc = match build(f, &p) {
@@ -281,6 +323,9 @@ fn grids(rng: &mut Rng, nsetups: usize, res: usize) {
       bw_nm: rng.log_range(0.2, 8.0),
       th_s_ext: if rng.coin() { 0.0 } else { rng.range(0.2, 3.0) },
       ls_nm: 2.0 * f.lp_nm,
+      phi_s_deg: 0.0,
+      temp_c: 20.0,
+      z0_um: None,
     };
     let integ = if k % 2 == 0 { Integrator::Simpson { divs: 200 } } else { Integrator::GaussLegendre { degree: 40 } };
     let spdc = match build(f, &p) {
@@ -374,19 +419,22 @@ fn corpus(args: &[String]) {
     let (os, oi) = (hexf("ws"), hexf("wi"));
     let integ = parse_integ(e["integrator"].as_str().unwrap_or("simpson200"));
     let id = e["id"].as_str().unwrap_or("?").to_string();
-    let r = guarded(move || -> Result<SPDC, String> {
-      let mut s = SPDC::from_json(cfg).map_err(|e| e.to_string())?;
-      s.idler.set_waist(wi_um * 1e-6 * M);
-      s.assign_optimal_waist_positions();
-      Ok(s)
-    });
-    let spdc = match r {
-      Ok(Ok(s)) => s,
+    let z0 = e["setup"]["waist_positions_um"].as_array().and_then(|a| Some((a.first()?.as_f64()?, a.get(1)?.as_f64()?)));
+    let spdc = match build_from(cfg, wi_um, z0) {
+      Ok(s) => s,
       _ => {
         emit(json!({"kind":"corpus_fail","id":id}));
         continue;
       }
     };
+    // the scalars of Model/PMParams.v for the setup and its exchanged twin (public accessors only; harness c06): input of the
+    // branch analysis of the GENERATED singles integrand (vlib/C08_branch.py)
+    {
+      let (a, b) = (spdc.clone(), spdc.clone().with_swapped_signal_idler());
+      if let Ok((pa, pb)) = guarded(move || (crate::c06::dump_params(&a, w(os), w(oi), &[0.0]), crate::c06::dump_params(&b, w(oi), w(os), &[0.0]))) {
+        emit(json!({"kind":"params","id":id,"direct":pa,"swapped":pb}));
+      }
+    }
     let (a, b) = (spdc.clone(), spdc.clone());
     let js = match guarded(move || (JointSpectrum::new(a, integ), JointSpectrum::new(b.with_swapped_signal_idler(), integ))) {
       Ok(v) => v,
